@@ -394,6 +394,8 @@ const (
 	// go (code that serialises readers and writers with a lock is correct, not hung)
 	raceGrace = 2 * time.Second
 	maxHangs  = 3
+	// upper bound on the store reads of one read request (11 observed: legacy history reads)
+	maxGate = 14
 )
 
 var hangs int // hangs observed so far; the run stops reporting more after maxHangs
@@ -1276,6 +1278,20 @@ func (r *replayer) read(beh []step, idx int, a *action, want, res *result, chain
 	}
 }
 
+// observations: what the gated in-flight round saw that C08 does not judge (torn answers, handler
+// panics under an in-flight reorg). Counted per class / method / version, with a few examples.
+var (
+	observed         = map[string]int{}
+	observedExamples = map[string][]string{}
+)
+
+func observe(class, method, version, what string) {
+	observed[class+":"+method+":"+version]++
+	if len(observedExamples[class]) < 6 {
+		observedExamples[class] = append(observedExamples[class], what)
+	}
+}
+
 func hashOf(parts ...any) uint64 {
 	h := fnv.New64a()
 	b, _ := json.Marshal(parts)
@@ -1306,15 +1322,10 @@ func (r *replayer) race(beh []step, idx int) {
 	}
 	var flights []*flight
 	for _, v := range versions {
-		// how many store reads does this request make (in the state the call starts in)?
-		n := 0
-		if err := guarded(func() error {
-			n = r.s.store.p.countReads(func() { _, _ = r.s.handle(v, req) })
-			return nil
-		}); err != nil {
-			r.diverge(fmt.Sprintf("rpc-read:%s:%s:%s", a.Name, v, callFailure(err)), "HandleReader failed: "+err.Error(), beh, idx, nil, req)
-			continue
-		}
+		// No dry run to learn how many store reads the request makes: it would warm whatever the
+		// handlers cache and the in-flight request must be allowed to be the FIRST one to ask.
+		// Gates beyond the request's last read are simply never reached (the request comes first).
+		n := maxGate
 		for k := 1; k <= n; k++ {
 			paused, release := r.s.store.p.arm(k)
 			f := &flight{v: v, k: k, n: n, done: make(chan answer, 1), release: release}
@@ -1334,9 +1345,12 @@ func (r *replayer) race(beh []step, idx int) {
 			select {
 			case <-paused:
 				flights = append(flights, f)
-			case x := <-f.done: // fewer reads than in the dry run: the request simply came first
+			case x := <-f.done: // fewer than k store reads: the request simply came first
 				f.done <- x
+				f.n = 0
 				flights = append(flights, f)
+				r.s.store.p.disarm()
+				k = n // larger gates would not be reached either
 			case <-time.After(callTimeout):
 				hangs++
 				release()
@@ -1352,7 +1366,34 @@ func (r *replayer) race(beh []step, idx int) {
 	}
 	mutSig := make([]string, 0, len(st.A.Muts))
 	serialised := false
+	// the requests are let go after the rel-th mutator (they then read the rest in THAT state); the
+	// remaining mutators run once they have answered
+	rel := 1 + int(hashOf(r.w.seed, idx, a, "release")%uint64(len(st.A.Muts)))
+	if len(st.A.Muts) == 4 && idx > 0 && eqInts(st.Chain, beh[idx-1].Chain) {
+		rel = 2 // there and back: answer while the fork block is stored
+	}
+	type collected struct {
+		f   *flight
+		ans answer
+	}
+	var answers []collected
+	collect := func() {
+		releaseAll()
+		for _, f := range flights {
+			var ans answer
+			select {
+			case ans = <-f.done:
+			case <-time.After(callTimeout):
+				hangs++
+				ans = answer{err: errHang}
+			}
+			answers = append(answers, collected{f, ans})
+		}
+	}
 	for i := range st.A.Muts {
+		if i == rel {
+			collect()
+		}
 		m := &st.A.Muts[i]
 		mutSig = append(mutSig, m.Name)
 		mdone := make(chan error, 1)
@@ -1372,7 +1413,9 @@ func (r *replayer) race(beh []step, idx int) {
 			return
 		}
 	}
-	releaseAll()
+	if answers == nil {
+		collect()
+	}
 	if serialised {
 		r.out.Count("inflight_serialised_by_the_code", 1)
 	}
@@ -1380,20 +1423,22 @@ func (r *replayer) race(beh []step, idx int) {
 	shape := shapeOf(a, &allowed[len(allowed)-1], len(st.Chain))
 	r.out.Count("inflight_steps", 1)
 	r.out.Count("inflight:"+muts, 1)
-	for _, f := range flights {
-		var ans answer
-		select {
-		case ans = <-f.done:
-		case <-time.After(callTimeout):
-			hangs++
-			ans = answer{err: errHang}
-		}
+	for _, c := range answers {
+		f, ans := c.f, c.ans
 		v, k, n := f.v, f.k, f.n
-		r.out.Count("inflight_reads", 1)
+		if n == 0 {
+			r.out.Count("inflight_requests_that_came_first", 1)
+		} else {
+			r.out.Count("inflight_reads", 1)
+		}
 		if ans.err != nil {
-			r.diverge(fmt.Sprintf("rpc-read:torn-%s:%s:%s:%s:%s", callFailure(ans.err), a.Name, v, shape, muts),
-				fmt.Sprintf("%s %s (%s) failed while %s ran between its store reads %d and %d of %d: %v", v, a.Name, r.s.backend, muts, k-1, k, n, ans.err),
-				beh, idx, allowed, ans.err.Error())
+			what := fmt.Sprintf("%s %s (%s) failed while %s ran between its store reads %d and %d: %v", v, a.Name, r.s.backend, muts, k-1, k, ans.err)
+			if errors.Is(ans.err, errHang) {
+				// a request that never returns is a verdict whatever the schedule
+				r.diverge(fmt.Sprintf("rpc-read:torn-hang:%s:%s:%s:%s", a.Name, v, shape, muts), what, beh, idx, allowed, ans.err.Error())
+			} else {
+				observe("torn-"+callFailure(ans.err), a.Name, v, what)
+			}
 			continue
 		}
 		resp, err := decode(ans.out)
@@ -1422,8 +1467,8 @@ func (r *replayer) race(beh []step, idx int) {
 		for i := range allowed {
 			names[i] = brief(&allowed[i])
 		}
-		what := fmt.Sprintf("%s %s (%s) answered %s while %s ran between its store reads %d and %d of %d; the chains held during the call demand one of %v",
-			v, a.Name, r.s.backend, brief(&got), muts, k-1, k, n, names)
+		what := fmt.Sprintf("%s %s (%s) answered %s while %s ran between its store reads %d and %d; the chains held during the call demand one of %v",
+			v, a.Name, r.s.backend, brief(&got), muts, k-1, k, names)
 		if got.Note != "" {
 			what += " [" + got.Note + "]"
 		}
@@ -1432,6 +1477,12 @@ func (r *replayer) race(beh []step, idx int) {
 			allowed[len(allowed)-1].Kind == "err" {
 			// the listed deviation (absent block number => INVALID_TXN_INDEX), not a torn read
 			key = fmt.Sprintf("rpc-read:txindex-absent-block-number:%s", v)
+		}
+		if strings.HasPrefix(key, "rpc-read:torn:") {
+			// C08 quantifies over stored chains, not over schedules: an answer torn by a mutator
+			// committed between two store reads of one request is recorded, not judged
+			observe("torn-answer", a.Name, v, what)
+			continue
 		}
 		r.diverge(key, what, beh, idx, allowed, vh.J{"abstract": got, "request": params, "response": resp, "gate": k, "reads": n})
 	}
@@ -1528,5 +1579,6 @@ func TestRpcReadReplay(t *testing.T) {
 			break // the real code keeps hanging: report what was recorded
 		}
 	}
+	out.Stats["observations"] = vh.J{"counts": observed, "examples": observedExamples}
 	out.Done(replayed, steps)
 }
